@@ -28,3 +28,40 @@ pub fn replay(ctx: &mut Ctx, prop: &str, case: &Value, detail: &Value) -> Result
         _ => Err(format!("unknown property {}", prop)),
     }
 }
+
+/// Replays the committed regression inputs of `prop` (shard 0 only): every input that ever
+/// exposed a defect stays in the quick tier whatever the seed.
+pub fn run_corpus(ctx: &mut Ctx, prop: &str) {
+    if ctx.shard != 0 {
+        return;
+    }
+    let dir = ctx.corpus_dir.join(prop);
+    let mut files: Vec<std::path::PathBuf> = match std::fs::read_dir(&dir) {
+        Ok(rd) => rd.filter_map(|e| e.ok().map(|e| e.path())).collect(),
+        Err(_) => return,
+    };
+    files.sort();
+    for f in files {
+        if f.extension().map(|e| e != "json").unwrap_or(true) {
+            continue;
+        }
+        let text = match std::fs::read_to_string(&f) {
+            Ok(t) => t,
+            Err(e) => {
+                ctx.harness_error(&format!("corpus file {:?}: {}", f, e));
+                continue;
+            }
+        };
+        let v: Value = match serde_json::from_str(&text) {
+            Ok(v) => v,
+            Err(e) => {
+                ctx.harness_error(&format!("corpus file {:?}: {}", f, e));
+                continue;
+            }
+        };
+        ctx.count("corpus_cases_replayed");
+        if let Err(e) = replay(ctx, prop, &v["case"], &v["detail"]) {
+            ctx.harness_error(&format!("corpus file {:?}: {}", f, e));
+        }
+    }
+}
